@@ -84,6 +84,16 @@ structure Ctl where
   ipEmptyErr : Bool
   deriving Repr, DecidableEq
 
+/-- the skeleton the hand-written model of V9.lean / Ipfix.lean / Parser.lean hard-codes (`Props.Ctl_skeleton_is_modelled` proves
+    that the one read from the source on this run is this one) -/
+def Ctl.std : Ctl :=
+  { gateFirst := true, v5ErrVersion := 5, v7ErrVersion := 7, v9ErrVersion := 9, ipErrVersion := 10,
+    v9SetSub := 4, v9Arms := [.tmpl, .optTmpl, .optData, .data], v9ScopeDiv := 4, v9OptDiv := 4, v9SkipEmpty := true,
+    v9ZeroIsErr := true, v9SizeSat := 65535, ipMsgSub := 16, ipSetSub := 4, ipArms := [.tmpl, .optTmpl, .data, .optData],
+    ipTmplCmp := .lt, ipTmplCmp2 := .ne, ipEntCmp := .gt, ipEntThr := 32767, ipEntSub := 32768, ipValidCmp := .gt,
+    ipValidThr := 0, ipVarLen := 65535, ipVarEscCmp := .eq, ipVarEsc := 255, ipBreakCmp1 := .eq, ipBreakVal := 0,
+    ipBreakCmp2 := .lt, ipEmptyErr := true }
+
 /-! ### V9 -/
 
 def parseV9OptTemplateK (k : Ctl) : P V9OptTemplate := fun i =>
